@@ -12,7 +12,7 @@ from common import run_model
 
 ID = "C02"
 LEVEL = "proof"
-GEN = ["TmplGen", "UtilGen", "RxGen", "UnicodeGen", "InlineGen", "BlockGen", "NormalizeGen"]
+GEN = ["TmplGen", "UtilGen", "RxGen", "UnicodeGen", "InlineGen", "BlockGen", "NormalizeGen", "SafeGen"]
 COQ = ["Props/C02.vo"]
 EXPLANATION = (
     "Every HTML render function (20 HTMLRenderer methods, 32 plugin/directive functions) is translated from its Python "
@@ -29,7 +29,7 @@ EXPLANATION = (
     "depth is rendered by a call with that reading property - the children hypothesis is discharged, not assumed - and "
     "the complete output returns the reader to character data (C02_whole_document_no_injected_markup). URL clause: the value a browser reads back from safe_url's output is the input or "
     "'#harmful-link', never a harmful scheme (C02_no_script_url, protocol lists regenerated). Safe-by-construction "
-    "parameters from regexes are justified by the verified 'avoids' analysis (ruby).")
+    "parameters from regexes are justified by the verified 'avoids' analysis (ruby); enumerated parameters (image/figure align, admonition name) come from regenerated fixed lists of lower-case words, and the code that validates them, sets the toc collapse flag and the task-list checked flag is tied by control skeletons with constants (SafeGen, C02_enumerated_values_are_safe).")
 ASSUMPTIONS = [
     "parameter kinds are the specification tools/spec/render_sigs.json; 'html' parameters are rendered children "
     "(the induction over the token tree is proved for the modelled configurations, and is the hypothesis children_ok for the other plugin and directive tokens) - incl. block_error.text (escaped where it is built, "
